@@ -83,12 +83,6 @@ def obsOf (x : Resp Nat Nat) : Obs :=
 
 /-! ### LimitedReadCloser on its own (the mechanism behind the 413 clause) -/
 
-/-- one call on the reader -/
-inductive Step where
-  | read (k : Nat)
-  | close
-deriving DecidableEq, Repr
-
 /-- what a call answered: bytes delivered and "returned a non-nil error";
     for Close: whether the error is ErrReadLimitExceeded -/
 structure StepObs where
@@ -96,6 +90,11 @@ structure StepObs where
   isErr : Bool
   isLimit : Bool
 deriving Repr
+
+/-- the observation a call's result gives -/
+def obsOfRes : StepRes → StepObs
+  | .rd bs e => ⟨bs.length, e.isSome, false⟩
+  | .cl e => ⟨0, e.isSome, e == some .limit⟩
 
 /-- the calls up to the first Close are Reads, at least one of which reported
     an error (the stream was read to its end — the protocol of io.ReadAll + Close):
